@@ -132,10 +132,20 @@ impl<const BITS: usize, const LIMBS: usize> Encode for CompactRefUint<'_, BITS, 
             // 0..=0b0011_1111
             0..=6 => dest.push_byte((self.0.to::<u8>()) << 2),
             // 0..=0b0011_1111_1111_1111
-            7..=14 => ((self.0.to::<u16>() << 2) | 0b01).encode_to(dest),
+            7..=14 => {
+                #[cfg(feature = "recmo_uint_verif")]
+                crate::verif_hooks::hit(166);
+                ((self.0.to::<u16>() << 2) | 0b01).encode_to(dest);
+            }
             // 0..=0b0011_1111_1111_1111_1111_1111_1111_1111
-            15..=30 => ((self.0.to::<u32>() << 2) | 0b10).encode_to(dest),
+            15..=30 => {
+                #[cfg(feature = "recmo_uint_verif")]
+                crate::verif_hooks::hit(167);
+                ((self.0.to::<u32>() << 2) | 0b10).encode_to(dest);
+            }
             _ => {
+                #[cfg(feature = "recmo_uint_verif")]
+                crate::verif_hooks::hit(165);
                 let bytes_needed = self.0.byte_len();
                 assert!(
                     bytes_needed >= 4,
@@ -254,8 +264,12 @@ impl<const BITS: usize, const LIMBS: usize> Decode for CompactUint<BITS, LIMBS> 
                     if Uint::<COMPACT_BITS_LIMIT, 9>::from(x)
                         > Uint::from_limbs_slice(&new_limbs) >> ((68 - bytes as usize + 1) * 8)
                     {
+                        #[cfg(feature = "recmo_uint_verif")]
+                        crate::verif_hooks::hit(174);
                         x
                     } else {
+                        #[cfg(feature = "recmo_uint_verif")]
+                        crate::verif_hooks::hit(175);
                         return Err(OUT_OF_RANGE.into());
                     }
                 }
